@@ -217,8 +217,8 @@ def run(ctx):
         # run_process closes what is still registered
         for mp in ('read_fd_to_buffer', 'write_fd_to_buffer'):
             cl = [s for s in after if s.get('kind') == 'CXXForRangeStmt' and any(canon(x) == mp for x in walk(s) if x.get('kind') == 'DeclRefExpr') and any(c.get('kind') == 'CallExpr' and call_name(c) == 'close' and nf(call_args(c)[0]).endswith('.first') for c in walk(s))]
-            rets = [r for r in walk(rb) if r.get('kind') == 'ReturnStmt']
-            thr = [t for t in walk(rb) if t.get('kind') == 'CXXThrowExpr' and t['_off'] > lp['_off'] and enclosing(t, LOOPS) is None]
+            rets = [r for r in walk(rb) if r.get('kind') == 'ReturnStmt' and enclosing(r, ('LambdaExpr',)) is None]
+            thr = [t for t in walk(rb) if t.get('kind') == 'CXXThrowExpr' and t['_off'] > lp['_off'] and enclosing(t, LOOPS) is None and enclosing(t, ('LambdaExpr',)) is None]
             ok = len(cl) == 1 and all(cl[0]['_off'] < r['_off'] for r in rets) and all(cl[0]['_off'] < t['_off'] for t in thr) and (not drain or cl[0]['_off'] > drain[0]['_off'])
             ctx.check(ok, R, 'run_process|closes-%s' % mp, cl[0] if cl else runp, 'every descriptor still in %s is closed before run_process returns or throws its check error' % mp,
                       'descriptors still registered in %s when the child exits are never closed: each run_process call leaks them' % mp)
